@@ -21,6 +21,7 @@ class HyteraIPSC:
     DEFAULT_RESERVED_2A: bytes = b"\x40\x00"
     DEFAULT_RESERVED_2B: bytes = b"\xe2\x08"
     DEFAULT_RESERVED_1: bytes = b"\x00"
+    DEFAULT_PAYLOAD_PADDING: bytes = b"\x00"
 
     def __init__(
         self,
@@ -57,6 +58,8 @@ class HyteraIPSC:
         self.reserved_2a: bytes = HyteraIPSC.DEFAULT_RESERVED_2A
         self.reserved_2b: bytes = HyteraIPSC.DEFAULT_RESERVED_2B
         self.reserved_1: bytes = HyteraIPSC.DEFAULT_RESERVED_1
+        # 34th byte of payload section, dmr burst is 33 bytes
+        self.payload_padding: bytes = HyteraIPSC.DEFAULT_PAYLOAD_PADDING
 
     def __repr__(self) -> str:
         return (
@@ -86,14 +89,17 @@ class HyteraIPSC:
         reserved_7a = ipsc[9:16]
         timeslot = Timeslot(int.from_bytes(ipsc[16:18], "little"))
         slot_type = SlotType(int.from_bytes(ipsc[18:20], "little"))
-        color_code = int.from_bytes(ipsc[20:22], "little")
+        # color code is 4-bit value repeated in all four half-bytes
+        color_code = int.from_bytes(ipsc[20:22], "little") & 0x0F
         frame_type = FrameType(int.from_bytes(ipsc[22:24], "little"))
         reserved_2a = ipsc[24:26]
-        payload = byteswap_bytes(ipsc[26:60])[:-1]
+        ipsc_payload = ipsc[26:60]
+        payload = byteswap_bytes(ipsc_payload)[:-1]
         reserved_2b = ipsc[60:62]
         call_type = CallType(int.from_bytes(ipsc[62:63], "little"))
-        destination_radio_id = int.from_bytes(ipsc[63:67], "little")
-        source_radio_id = int.from_bytes(ipsc[67:71], "little")
+        # radio ids are 24-bit values in upper three bytes of U4LE
+        destination_radio_id = int.from_bytes(ipsc[63:67], "little") >> 8
+        source_radio_id = int.from_bytes(ipsc[67:71], "little") >> 8
         reserved_1 = ipsc[71:72]
         ipsc = HyteraIPSC(
             sequence_number=sequence_number,
@@ -114,6 +120,7 @@ class HyteraIPSC:
         ipsc.reserved_2a = reserved_2a
         ipsc.reserved_2b = reserved_2b
         ipsc.reserved_1 = reserved_1
+        ipsc.payload_padding = byteswap_bytes(ipsc_payload)[-1:]
         return ipsc
 
     @staticmethod
@@ -141,7 +148,8 @@ class HyteraIPSC:
         _ipsc.reserved_7a = ipsc.reserved_7a
         _ipsc.reserved_2a = ipsc.reserved_2a
         _ipsc.reserved_2b = ipsc.reserved_2b
-        _ipsc.reserved_1 = ipsc.reserved_1b
+        _ipsc.reserved_1 = ipsc.reserved_1b.to_bytes(1, byteorder="little")
+        _ipsc.payload_padding = byteswap_bytes(ipsc.ipsc_payload)[-1:]
 
         return _ipsc
 
@@ -159,13 +167,16 @@ class HyteraIPSC:
             + self.frame_type.value.to_bytes(2, byteorder="little")
             + self.reserved_2a[0:2]
             + byteswap_bytes(
-                self.payload
-                if isinstance(self.payload, bytes)
-                else (self.payload.as_bytes() + b"\x00")
+                (
+                    self.payload
+                    if isinstance(self.payload, bytes)
+                    else self.payload.as_bytes()
+                )
+                + self.payload_padding[0:1]
             )
             + self.reserved_2b[0:2]
             + self.call_type.value.to_bytes(1, byteorder="little")
-            + self.destination_radio_id.to_bytes(4, byteorder="little")
-            + self.source_radio_id.to_bytes(4, byteorder="little")
+            + (self.destination_radio_id << 8).to_bytes(4, byteorder="little")
+            + (self.source_radio_id << 8).to_bytes(4, byteorder="little")
             + self.reserved_1[0:1]
         )
